@@ -22,9 +22,9 @@ Rec(a) == plan' = Append(plan, a) /\ UNCHANGED <<done, nQ>>
 NEnv == Len(SelectSeq(plan, LAMBDA h : h.a # "quiet"))
 
 (* one fixed schedule of the internal steps *)
-Int1 == HzeSrv \/ HzeCmd \/ HzeMsg \/ InCheck
+Int1 == HzeSrv \/ HzeCmd \/ HzeMsg \/ InCheck \/ Rearm
 Int2 == EInit \/ Sleep100 \/ Launch \/ LaunchStore \/ LaunchFail
-Int3 == ReadFwd \/ ReadIgnore \/ ReadEOF \/ Break
+Int3 == ReadFwd \/ FwdWrite \/ ReadIgnore \/ ReadEOF \/ Break
 Int4 == WaitReturns \/ WStore \/ WMsg \/ WArm \/ WCancel
 Int5 == Kill
 Int6 == CleanupFires \/ CleanupWrite
